@@ -585,6 +585,16 @@ func (env *Env) elabCall(n ECall) (string, SType, error) {
 		fmt.Sscanf(li.V, "%d", &ord)
 		t, err := env.idxOf(ord)
 		return t, tInt, err
+	case "box": // box(v): the interface value the compiler makes of a non-reference value v (ssa.MakeInterface)
+		t, st, err := env.elab(n.Args[0])
+		if err != nil {
+			return "", tRef, err
+		}
+		if st.T == nil || w.sortOf(st.T) == "Ref" {
+			return t, tRef, nil
+		}
+		f := e.declareFun(q("box."+w.tyid(st.T)), []string{w.sortOf(st.T)}, "Ref")
+		return fmt.Sprintf("(%s %s)", f, t), tRef, nil
 	case "ref": // view any Ref-sorted value as Ref
 		t, _, err := env.elab(n.Args[0])
 		return t, tRef, err
